@@ -91,8 +91,7 @@ package parser
 //@   ensures leaf-dd: typ == lexer.TTDoubleDash ==> len(result0.Transitions) == 1 && isType(result0.Transitions[0].Matcher, "matcher.optsEnd") &&
 //@       result0.Transitions[0].Next == result1 && p.tkpos == pos0 + 1
 //@   panics syntax: isType(panicval, "string") && 0 <= p.tkpos && p.tkpos <= len(p.tokens)
-//@   panics leaf-error-points-at-the-leaf: (typ == lexer.TTArg || typ == lexer.TTOptions || typ == lexer.TTShortOpt || typ == lexer.TTLongOpt ||
-//@       typ == lexer.TTOptSeq || typ == lexer.TTDoubleDash) ==> p.tkpos == pos0
+//@   panics leaf-error-points-at-the-leaf: (pos0 >= len(p.tokens) || !(typ == lexer.TTOpenPar || typ == lexer.TTOpenSq)) ==> p.tkpos == pos0
 //@   loop 1 invariant built: 0 <= iterpos() && iterpos() <= len(sq) && len(opts) == iterpos() && sq == name &&
 //@       (forall j int :: 0 <= j && j < len(opts) ==> (("-" + sq[j:j+1]) in p.optionsIdx) && opts[j] == p.optionsIdx["-" + sq[j:j+1]])
 
